@@ -635,7 +635,7 @@ def collect_real(roots):
     saved = cam.run_job
     cam.run_job = lambda *_a, **_k: list(roots)
     try:
-        with time_limit(2):
+        with time_limit(1):
             return cam.collect_tasks('job.py', [], {})
     except Exception as exc:  # noqa
         return exc
@@ -651,7 +651,7 @@ def run_case(ctx, case, outroot, judge=True):
     results = []
     for k, op in enumerate(case['ops']):
         try:
-            with time_limit(2):
+            with time_limit(1):
                 res = run_op(world, k, op)
         except Hang as exc:
             res = exc
@@ -1127,11 +1127,19 @@ def run(ctx):
     outroot = os.path.join(ctx.wd(), 'out')
     os.makedirs(outroot, exist_ok=True)
     records = []
+    failing = 0
     for case in cases:
+        if failing >= 12:
+            # the property is violated all over the place: no need to go on
+            # (a hanging close_dependency_graph costs 2 s per case)
+            ctx.notes.append(f'stopped after {failing} failing cases of {len(records)}')
+            break
         nviol = len(ctx.violations)
         rec = run_case(ctx, case, outroot)
         if len(ctx.violations) > nviol:
-            shrink(ctx, case, outroot, nviol)
+            failing += 1
+            if failing <= 4:
+                shrink(ctx, case, outroot, nviol)
         records.append(rec)
         for op in case['ops']:
             ctx.count('op_' + op[0])
@@ -1144,6 +1152,7 @@ def run(ctx):
                       sample_every=499)
     shard_size = 250
     shards = []
+    cases = cases[:len(records)]
     for k in range(0, len(cases), shard_size):
         items = [c_case(c, r) for c, r in zip(cases[k:k + shard_size], records[k:k + shard_size])]
         shards.append('Definition cases : list case :=\n [' + ';\n '.join(items)
